@@ -52,6 +52,14 @@ EXCEPTIONS = {"ValueError": ValueError, "KeyError": KeyError, "ZeroDivisionError
               "InjectedFault": InjectedFault, "InjectedBase": InjectedBase, "StopIteration": StopIteration}
 
 
+# further classes a numeric user function can raise (own family; the rotation over EXCEPTIONS above is left as it was)
+EXTRA_EXCEPTIONS = {c.__name__: c for c in (FloatingPointError, OverflowError, ArithmeticError, RuntimeError, TypeError, IndexError,
+                                            LookupError, AttributeError, NotImplementedError, AssertionError, MemoryError,
+                                            OSError, KeyboardInterrupt, SystemExit, GeneratorExit, Exception, BaseException)}
+_ROTATED = list(EXCEPTIONS)
+EXCEPTIONS.update(EXTRA_EXCEPTIONS)
+
+
 class Ctl:
     """fault plan state shared by the wrapped user functions"""
 
@@ -475,6 +483,39 @@ def _bounded(payload):
             parts["stopiteration_probes"] += 1
             consider({"program": prog, "fault": {"func": name, "k": k, "step": s, "exc": "StopIteration"},
                       "mode": "run", "more": 1})
+
+    # a user function called inside a looped assignment fails mid-loop; the phase that runs next uses a per-step temporary
+    # with the loop counter's name (nothing of the failed loop may be visible to it)
+    for counter in ("i", "k"):
+        prog = {"phases": [
+            {"name": "stage", "next": "update", "body": [
+                ["assign", "w", ["call", "<builtin>array", [4], {}]],
+                ["assign_sub", "w", counter, ["call", "<func>f", [["+", "<state>y", counter]], {}], [[counter, 0, 4]]],
+                ["assign", "<state>y", ["+", ["*", 0.5, "<state>y"], ["[]", "w", 3]]]]},
+            {"name": "update", "next": "stage", "body": [
+                ["assign", counter, ["+", "<state>n", 1]],
+                ["assign", "<state>n", counter],
+                ["assign", "<t>", ["+", "<t>", "<dt>"]],
+                ["yield", "<state>n", "n", "<t>", "count"]]}],
+            "initial": "stage", "funcs": {"<func>f": ["lin", 0.5, 1]}, "state": {"y": 1.0, "n": 0}, "t0": 0, "dt": 0.25,
+            "run": {"max_steps": 3, "t_end": None}, "cap": 24}
+        for (s, name, k) in crash_points(prog, 5):
+            for mode in ("run", "single"):
+                parts["failure_inside_a_looped_assignment_probes"] = parts.get("failure_inside_a_looped_assignment_probes", 0) + 1
+                consider({"program": prog, "fault": {"func": name, "k": k, "step": s, "exc": "ValueError"}, "mode": mode, "more": 3})
+
+    # every further exception class, at the first and the last crash point of two programs, both driving modes
+    rng_x = random.Random("exception-classes/%s" % seed)
+    for pi in range(2):
+        prog = base_program(rng_x)
+        pts = crash_points(prog, steps)
+        if not pts:
+            continue
+        for (s, name, k) in {pts[0], pts[-1]}:
+            for exc in sorted(EXTRA_EXCEPTIONS):
+                for mode in ("run", "single"):
+                    parts["exception_class_probes"] = parts.get("exception_class_probes", 0) + 1
+                    consider({"program": prog, "fault": {"func": name, "k": k, "step": s, "exc": exc}, "mode": mode, "more": 1})
 
     for e in payload.get("known", []):
         try:
